@@ -149,7 +149,7 @@ def standin(rep: Report):
     rnd = random.Random(rep.seed)
     stmts = [s for s in pool.PY_STMTS + pool.XSH_STMTS if s.endswith("\n")]
     stmts += ["case = 1\n", "match = 2\n", "type = 3\n", "else_ = 1\n", "x = (1,\n  2)\n", "s = '''a\nb'''\n", "f'''\n{a}\n'''\n", "with! a:\n    b c\n    d\n", "with! a: x y\n", "with! a:pass\n", "with! a as b:go on\n", "with! a:\n    s = \"\"\"m\n    n\"\"\"\n",
-              "f!(a, b)\n", "$(echo! a   b)\n", "if a:\n    with! b:\n        c d\n    e\n", "x = 1 \\\n  + 2\n", "# comment\n", "\n", "if a:\n    b\n", "def f():\n    return 1\n",
+              "f!(a, b)\n", "$(echo! a   b)\n", "$(echo!)\n", "x = ![sudo ! ]\n", "f!()\n", "z=$[ls(a b)]\n", "if a:\n    with! b:\n        c d\n    e\n", "x = 1 \\\n  + 2\n", "# comment\n", "\n", "if a:\n    b\n", "def f():\n    return 1\n",
               "class A:\n    x = 1\n\n    def f(self): pass\n", "try:\n    a\nfinally:\n    b\n", "for i in x:\n    pass\nelse:\n    pass\n", "match x:\n    case 1:\n        pass\n"]
     stmts = list(dict.fromkeys(stmts))
     n = len(stmts)
